@@ -204,6 +204,27 @@ def _work_sweep(task) -> core.Part:
     return p
 
 
+def _work_lengths(task) -> core.Part:
+    """Every payload length in the task's list (not only 0,1,2,17,max): length thresholds in the reader show here."""
+    lens, = task
+    p = core.Part()
+    for n in lens:
+        for cname in ("ramp", "escflag"):
+            spec = (TYPES[0], 1, 1, 0x13, cname, n)
+            frame, _ = spec_frame(spec)
+            for cfg in X.CFGS:
+                if not RH.clean_domain(frame, cfg[0], cfg[1]):
+                    continue
+                S = RH.stream([frame, core_pool()["short"]], cfg[0], 1)
+                p.add("nontrivial")
+                for ch in (("cuts", []), ("fixed", 64, 0), ("fixed", 7, 3), ("cuts", [len(S) // 2])) + ((("bytewise",),) if n <= 64 else ()):
+                    _chk(p, cfg, [frame, core_pool()["short"]], 1, b"", ch, _mk(S, ch), f"payload length {n} ({cname})")
+        if p.full("clean_delivery"):
+            p.capped = True
+            break
+    return p
+
+
 def _work_fill(task) -> core.Part:
     """Inter-frame fill of n flags for every n in a range (counters/thresholds in the reader would show here)."""
     fills, = task
@@ -259,6 +280,9 @@ def main(run: core.Run) -> int:
     run.merge(par.pmap(_work_seq, seqt, seed=run.seed))
     nsw = len(X.fcs_sweep_frames())
     run.merge(par.pmap(_work_sweep, [(lo, lo + 22) for lo in range(0, nsw, 22)], seed=run.seed))
+    plens = list(range(0, 301)) + (list(range(301, 2039, 7)) if q else list(range(301, 2039))) + [2036, 2037, 2038]
+    plens = sorted(set(plens))
+    run.merge(par.pmap(_work_lengths, [(plens[i::32],) for i in range(32)], seed=run.seed))
     fills = list(range(1, 131)) + [255, 256, 257, 1000, 2047, 2048, 4096]
     run.log(f"fill sweep: {len(fills)} fill lengths")
     run.merge(par.pmap(_work_fill, [(fills[i::16],) for i in range(16)], seed=run.seed))
@@ -267,6 +291,7 @@ def main(run: core.Run) -> int:
     tot.sample({"frame_spec": "type A/S0, dest 4 octets, src 4 octets, control 13, content escflag, payload max (total 2047 octets)"})
     run.bounds = {"single_frames": f"{len(specs)} shapes with payload 0/1/2/17 + {len(big)} shapes of 2046/2047 octets",
                   "sequences": f"{len(seqt)} streams (pairs: all 36 x fill 1..3 x 5 noises; triples: {'subset' if q else 'all 216'})",
+                  "payload_length_sweep": "every payload length 0..300 and " + ("every 7th" if q else "every") + " length up to 2038, two contents, 4-5 chunkings",
                   "check_sequence_sweep": f"{nsw} frames covering every octet value in every FCS/HCS position, alone and between two frames",
                   "fill_sweep": "every fill length 1..130 and 255,256,257,1000,2047,2048,4096 on two multi-frame streams",
                   "chunkings": "one-shot, octet-wise, every single cut, fixed 2..9 x every phase; every pair of cuts for noise-free pairs <=80 octets; "
